@@ -271,7 +271,7 @@ class Machine:
         elif fn == "vario_estimate":
             op["variant"] = rng.choice(["plain", "bins", "latlon", "latlon_bins", "masked",
                                         "directional", "normed", "structured", "sampled",
-                                        "stacked", "no_data", "no_data"])
+                                        "stacked", "no_data", "no_data", "masked_ma"])
         elif fn == "vario_axis":
             op["variant"] = rng.choice(["plain", "masked", "nan", "masked_nan", "masked_no_data",
                                         "no_data"])
@@ -563,6 +563,18 @@ class Machine:
                 top = 5.0
             edges = np.linspace(0.0, top, rs.randint(3, 6))
             kw["bin_edges"] = self.alloc("bin_edges", edges, lay, site)
+        if v == "masked_ma":
+            # the field itself is a masked array (own mask) AND a mask argument is given
+            own = np.zeros(shape, dtype=bool)
+            own.flat[1 % own.size] = True
+            self.track(own, "field.mask", site, "caller")
+            data = field if isinstance(field, np.ndarray) else np.array(fvals)
+            field = np.ma.array(data, mask=own)
+            self.track(field.mask, "field.mask", site, "caller")
+            mask = np.zeros(shape, dtype=bool)
+            mask.flat[-2 % mask.size] = True
+            kw["mask"] = mask
+            self.track(mask, "mask", site, "caller")
         if v == "masked":
             mask = np.array([rs.random() < 0.3 for _ in range(int(np.prod(shape)))]).reshape(shape)
             mask.flat[0] = False
@@ -637,7 +649,12 @@ class Machine:
         xa = self.alloc("x_data", x, lay, site)
         ya = self.alloc("y_data", y, lay, site)
         if v == "weights":
-            kw["weights"] = self.alloc("weights", self._vals(rs, (8,), 0.5, 2.0), lay, site)
+            wv = self._vals(rs, (8,), 0.5, 2.0)
+            if rs.random() < 0.5:
+                wv[rs.randrange(8)] = 0.0   # an excluded bin
+            kw["weights"] = self.alloc("weights", wv, lay, site)
+            if lay == "list":
+                kw["weights"] = np.array(kw["weights"])  # documented: ndarray
         if v == "sill":
             kw["sill"] = float(m.sill)
         kw["nugget"] = rs.choice([True, False])
